@@ -318,18 +318,31 @@ def misbehaviour (s : St) (c : Nat) (k : MKind) (ibc : Bool) : St × Res :=
 
 -- ---------------------------------------------------------------- channels
 
-/-- `HandleMsgChannelOpenAck` (ante) followed by the message; `ibc` = the handshake proof verifies -/
-def chanAck (s : St) (ch : Nat) (ibc : Bool) : St × Res :=
+/-- how the last step of a transfer-channel handshake reaches the hub -/
+inductive ChanRoute
+  | ack          -- MsgChannelOpenAck as a message of the transaction (handshake started from the hub)
+  | nestedAck    -- MsgChannelOpenAck inside authz.MsgExec: neither the nested-message filter nor the decorator looks at it
+  | confirm      -- MsgChannelOpenConfirm (handshake started from the rollapp): not in the decorator's handled set
+  deriving DecidableEq, Repr, Inhabited
+
+/-- `HandleMsgChannelOpenAck` (ante; only for `MsgChannelOpenAck` at top level) followed by the message;
+    `ibc` = the handshake proof verifies -/
+def chanAck (s : St) (ch : Nat) (w : ChanRoute) (ibc : Bool) : St × Res :=
   match s.chans.find? (·.id == ch) with
-  | none => (s, .ante .chanUnknown)
+  | none => (match w with
+    | .ack => (s, .ante .chanUnknown)
+    | _ => (s, .msg .ibc))
   | some c =>
     let openIt (s : St) : St × Res :=
       if ibc then ({ s with chans := s.chans.map (fun x => if x.id == ch then { x with isOpen := true } else x) }, .ok) else (s, .msg .ibc)
-    match lookup s.c2r c.client with
-    | none => openIt s
-    | some r =>
-      if (lookup s.chanOf r).isSome then (s, .ante .chanExists)
-      else openIt { s with chanOf := s.chanOf ++ [(r, ch)] }
+    match w with
+    | .ack =>
+      (match lookup s.c2r c.client with
+      | none => openIt s
+      | some r =>
+        if (lookup s.chanOf r).isSome then (s, .ante .chanExists)
+        else openIt { s with chanOf := s.chanOf ++ [(r, ch)] })
+    | _ => openIt s      -- the channel opens, `Rollapp.ChannelId` is not touched
 
 -- ---------------------------------------------------------------- hooks around Core ops
 
@@ -485,7 +498,7 @@ inductive Op
   | updateClient (c : Nat) (w : Wrap) (hd : Hdr) (ibc : Bool)
   | misbehaviour (c : Nat) (k : MKind) (ibc : Bool)
   | chanInit (c : Nat)
-  | chanAck (ch : Nat) (ibc : Bool)
+  | chanAck (ch : Nat) (w : ChanRoute) (ibc : Bool)
   deriving Repr, Inhabited
 
 def step (s : St) : Op → St × Res
@@ -498,7 +511,7 @@ def step (s : St) : Op → St × Res
   | .updateClient c w hd ibc => updateClient s c w hd ibc
   | .misbehaviour c k ibc => misbehaviour s c k ibc
   | .chanInit c => chanInit s c
-  | .chanAck ch ibc => chanAck s ch ibc
+  | .chanAck ch w ibc => chanAck s ch w ibc
 
 def init (p : Core.Params) : St :=
   { core := Core.init p, descs := [], clients := [], r2c := [], c2r := [], signerSet := [], signerMap := [], chanOf := [], chans := [] }
